@@ -6,7 +6,6 @@ six expression contexts x three dialects.  Oracle (model in vf/oracles/optree.py
 (b) sqlite3 evaluates the original text and the fully parenthesised print of the parsed tree to the same values.
 The model itself is cross-checked against sqlite3 on every case (disagreement = harness error, never a violation).
 """
-import itertools
 from hypothesis import strategies as st
 
 from vf import findings, hyp
@@ -18,19 +17,64 @@ RULE = ('cases = (dialect, context, operator tree); trees over unary minus, * / 
         '{a..h, 0..3, NULL}; the text is printed with minimal parentheses under the standard order (a comparison '
         'directly under a comparison is always parenthesised = the carve-out) plus optional redundant parentheses, and '
         'placed in select list / WHERE / JOIN ON / HAVING / function argument / CASE branch. Bounded-exhaustive part: '
-        'every tree with <= 3 operators over 14 operator kinds (spellings rotated); random part: Hypothesis trees with '
-        'up to 12 leaves and every spelling. non-trivial = >= 2 operators and the printed token sequence has >= 2 '
-        'grammatical bracketings (some operator has an un-parenthesised operand open towards it); '
-        'distinct by (dialect, context, text)')
+        'every tree with <= 3 operators over 14 operator kinds (spellings rotated; thorough: also 4 operators over 9 '
+        'kinds) with and without one redundant parenthesis pair; random part: Hypothesis trees with up to 10 '
+        'operators, depth <= 6, every spelling, random parentheses. non-trivial = >= 2 operators and the printed '
+        'token sequence has >= 2 grammatical bracketings (some operator has an un-parenthesised operand that is open '
+        'towards it, so precedence/associativity decides the grouping); distinct by (dialect, context, text)')
 ASSUMPTIONS = ['sqlite3 (stdlib) is the reference engine; its grouping agrees with the property\'s order on the '
-               'generated domain (checked on every case: original text vs fully parenthesised generating tree)',
+               'generated domain (checked on every case: original text vs fully parenthesised generating tree; a '
+               'disagreement is a harness error)',
                'values: 40 fixed assignments of {NULL,-2..3} to the leaves; equal values on all of them is taken as '
-               '"same result"',
+               '"same result"; groupings that are equal as functions (e.g. -(a*b) vs (-a)*b) are judged by shape only',
+               'when the parsed shape equals the generating tree, clause (b) holds by the self-check above (the two '
+               'fully parenthesised texts are identical)',
                'spellings/contexts a dialect\'s grammar lacks (NOT LIKE in mysql/sqlite, CASE in sqlite) are excluded '
-               'for that dialect; the list is pinned and re-probed at start-up',
-               'unary minus directly over NULL is excluded (crashes in the mindsdb dialect: listed under C02)']
-FLOORS = {'quick': {}, 'thorough': {}}
-N = {'quick': 1500, 'thorough': 20000}
+               'for that dialect; the list is pinned and re-probed at start-up, any other rejection is a failure',
+               'excluded by construction: unary minus directly over NULL (crashes in the mindsdb dialect, listed under '
+               'C02), `- 0` and `- - <int>` (the mindsdb grammar folds them into a literal, which hides the operators), '
+               'a bare constant in WHERE/HAVING (refused by the mindsdb dialect by design)',
+               'IN lists are the fixed list (1, 2); LIKE operands are the integer/NULL leaves (sqlite compares their '
+               'text forms)']
+FLOORS = {
+    'quick': {
+        'ctx:case': 7100, 'ctx:func': 10000, 'ctx:having': 9800, 'ctx:on': 9800, 'ctx:select': 25000,
+        'ctx:where': 9800, 'explicit-parens': 41000, 'leaf:int': 21000, 'leaf:null': 18000,
+        'nontrivial:mindsdb': 12000, 'nontrivial:mysql': 12000, 'nontrivial:sqlite': 11000, 'ops:3': 57000,
+        'ops:5+': 3000, 'origin:enum': 68000, 'origin:random': 8000,
+        'pair:A/A': 1400, 'pair:A/M': 2700, 'pair:A/U': 1200, 'pair:AND/A': 1400, 'pair:AND/AND': 330,
+        'pair:AND/C': 4000, 'pair:AND/M': 1300, 'pair:AND/N': 580, 'pair:AND/U': 600, 'pair:C/A': 8100,
+        'pair:C/M': 8100, 'pair:C/U': 3900, 'pair:M/M': 1300, 'pair:M/U': 1200, 'pair:N/A': 630,
+        'pair:N/C': 2100, 'pair:N/M': 660, 'pair:N/N': 390, 'pair:N/U': 380, 'pair:OR/A': 1400,
+        'pair:OR/AND': 670, 'pair:OR/C': 4000, 'pair:OR/M': 1300, 'pair:OR/N': 570, 'pair:OR/OR': 360,
+        'pair:OR/U': 600, 'pair:U/U': 400, 'parenthesised-comparison-under-comparison': 22000,
+        'spelling:!=': 5600, 'spelling:%': 14000, 'spelling:*': 9200, 'spelling:+': 14000,
+        'spelling:-': 14000, 'spelling:-u': 11000, 'spelling:/': 6400, 'spelling:<': 3500,
+        'spelling:<=': 5000, 'spelling:<>': 5500, 'spelling:=': 5500, 'spelling:>': 3400,
+        'spelling:>=': 5000, 'spelling:and': 14000, 'spelling:between': 20000, 'spelling:in': 3700,
+        'spelling:is not null': 3500, 'spelling:is null': 7000, 'spelling:like': 12000,
+        'spelling:not': 11000, 'spelling:not in': 6800, 'spelling:not like': 2200, 'spelling:or': 14000,
+        '__nontrivial__': 30000},
+    'thorough': {
+        'ctx:case': 41000, 'ctx:func': 53000, 'ctx:having': 44000, 'ctx:on': 44000, 'ctx:select': 130000,
+        'ctx:where': 44000, 'explicit-parens': 170000, 'leaf:int': 140000, 'leaf:null': 100000,
+        'nontrivial:mindsdb': 81000, 'nontrivial:mysql': 82000, 'nontrivial:sqlite': 74000,
+        'ops:3': 100000, 'ops:4': 190000, 'ops:5+': 52000, 'origin:enum': 280000, 'origin:random': 79000,
+        'pair:A/A': 6900, 'pair:A/M': 13000, 'pair:A/U': 9700,
+        'pair:AND/A': 10000, 'pair:AND/AND': 4400, 'pair:AND/C': 32000, 'pair:AND/M': 10000,
+        'pair:AND/N': 7700, 'pair:AND/U': 7400, 'pair:C/A': 47000, 'pair:C/M': 49000, 'pair:C/U': 41000,
+        'pair:M/M': 7400, 'pair:M/U': 11000, 'pair:N/A': 5500, 'pair:N/C': 25000, 'pair:N/M': 6300,
+        'pair:N/N': 6600, 'pair:N/U': 5700, 'pair:OR/A': 10000, 'pair:OR/AND': 8500, 'pair:OR/C': 32000,
+        'pair:OR/M': 10000, 'pair:OR/N': 7700, 'pair:OR/OR': 4700, 'pair:OR/U': 7500, 'pair:U/U': 6900,
+        'parenthesised-comparison-under-comparison': 140000, 'spelling:!=': 21000, 'spelling:%': 33000,
+        'spelling:*': 66000, 'spelling:+': 100000, 'spelling:-': 33000, 'spelling:-u': 100000,
+        'spelling:/': 60000, 'spelling:<': 39000, 'spelling:<=': 41000, 'spelling:<>': 18000,
+        'spelling:=': 18000, 'spelling:>': 37000, 'spelling:>=': 40000, 'spelling:and': 100000,
+        'spelling:between': 160000, 'spelling:in': 18000, 'spelling:is not null': 38000,
+        'spelling:is null': 48000, 'spelling:like': 35000, 'spelling:not': 100000,
+        'spelling:not in': 20000, 'spelling:not like': 6500, 'spelling:or': 100000,
+        '__nontrivial__': 200000}}
+N_RANDOM = {'quick': 24000, 'thorough': 320000}   # random cases per run, split over the shards
 
 DIALECTS = ('mindsdb', 'mysql', 'sqlite')
 FRAMES = {
@@ -59,8 +103,9 @@ KINDS3 = ['u-', 'not', '*', '%', '+', '-', '=', '<', 'like', 'and', 'or', 'betwe
 KINDS4 = ['u-', 'not', '*', '+', '<', 'and', 'or', 'between', 'isnull']
 SPELL = {'*': ['*', '/'], '%': ['%'], '+': ['+'], '-': ['-'], '=': ['=', '!=', '<>'], '<': ['<', '<=', '>', '>='],
          'like': ['like', 'not like'], 'and': ['and'], 'or': ['or']}
-ALL_SPELLINGS = ['-u', 'not', '*', '/', '%', '+', '-', '=', '!=', '<>', '<', '<=', '>', '>=', 'like', 'not like',
-                 'and', 'or', 'between', 'is null', 'is not null', 'in', 'not in']
+# failure kinds: 'shape' (site = '<expected outer> over <observed outer>' for each reversed pair of operators),
+# 'value' (site = the '; '-joined shape sites of the case), 'paren-flag' (site = node under the unflagged parentheses),
+# 'rejected' (site = skeleton of the minimised rejected expression), 'internal-error' (site = exception@frame)
 
 
 # ------------------------------------------------------------------------------------------------ library side
@@ -251,7 +296,7 @@ def _engine():
 
 def minimise_rejected(tree, ctx, d):
     """Smallest rejected sub-expression, then greedy replacement of operands by leaves.  (skeleton, ctx or 'any')."""
-    budget = [80]
+    budget = [400]
 
     def rej(t, c):
         if budget[0] <= 0:
@@ -619,4 +664,4 @@ def run_shard(col, k, nshards, tier, seed):
         if i % nshards == k:
             for rec in judge(c, col):
                 col.fail(rec, c)
-    hyp.explore(col, cases(), judge, N[tier], seed)
+    hyp.explore(col, cases(), judge, max(1, N_RANDOM[tier] // nshards), seed)
